@@ -141,7 +141,13 @@ def k_no_read(s):
         pass
     return True
 
-KINDS = {"valid": k_valid, "garbage": k_garbage, "bad_target": k_bad_target, "bad_port": k_bad_port, "bad_cl": k_bad_cl, "range_under": k_range_under,
+def k_long_post(s):
+    body = b"&".join(b"field%d=SECRET-OF-ANOTHER-CLIENT-%d" % (i, i) for i in range(25))
+    s.request(b"POST /form-url-encoded-enctype-post-method HTTP/1.1\r\nContent-Type: application/x-www-form-urlencoded\r\n\r\n" + body); return True
+def k_long_garbage(s):
+    s.request(b"\xff" * 3000); return True
+
+KINDS = {"long_post": k_long_post, "long_garbage": k_long_garbage, "valid": k_valid, "garbage": k_garbage, "bad_target": k_bad_target, "bad_port": k_bad_port, "bad_cl": k_bad_cl, "range_under": k_range_under,
          "many_headers": k_many_headers, "form_bad": k_form_bad, "multipart_inline": k_multipart_inline, "early_close": k_early_close,
          "rst_before": k_rst_before, "rst_after": k_rst_after, "half": k_half, "stall_close": k_stall_then_close, "no_read": k_no_read}
 
